@@ -24,6 +24,7 @@ THEOREMS = [
     "Aio.Http.stream_messages_strict",
     "Aio.Http.feedEof_messages_strict",
     "Aio.Http.run_messages_strict",
+    "Aio.Http.chunk_size_line_strict",
 ]
 RULE = ("request streams from the grammar (1-3 pipelined requests: origin/absolute/asterisk/authority targets, CL and "
         f"chunked bodies with extensions and trailers) and each of the {len(H.MUTATIONS)} mutation classes (duplicate/sign/"
